@@ -15,6 +15,6 @@ git -C $d apply $src/patch.diff || { echo "PATCH DOES NOT APPLY"; exit 8; }
 (cd /verif && flock /tmp/sa-test.lock python3 tools/baseline.py $d | tail -2)
 for p in $props; do
   out=$(VERIF_REPO=$d VERIF_MAXVIOL=2 /verif/check $p quick 2>&1); rc=$?
-  echo "$p rc=$rc $(echo "$out" | grep -E 'quick:' | tail -1 | cut -c1-90)"
-  if [ $rc -ne 0 ]; then echo "$out" | grep -E '^VIOLATION|^  key|^  detail|HARNESS|BUILD|exited' | cut -c1-400 | head -8; fi
+  echo "$p rc=$rc $(echo "$out" | grep -a -E 'quick:' | tail -1 | cut -c1-90)"
+  if [ $rc -ne 0 ]; then echo "$out" | grep -a -E '^VIOLATION|^  key|^  detail|HARNESS|BUILD|exited' | cut -c1-400 | head -8; fi
 done
